@@ -451,6 +451,7 @@ pub fn pin_schedule(case: &Case, prop: &str, clause: &str) -> Case {
         Case::P(c) => Case::P(crate::psim::pin_schedule(c, clause)),
         Case::L(c) => Case::L(crate::lsim::pin_schedule(c, prop, clause)),
         Case::K(c) => Case::K(crate::ksim::pin_schedule(c, prop, clause)),
+        Case::Q(c) => Case::Q(crate::qsim::pin_schedule(c, prop, clause)),
         other => other.clone(),
     }
 }
